@@ -204,6 +204,95 @@ def cli_flag_history(ctx, code, rs, name, flags):
     return vio, cut
 
 
+def _fix_markov(rs):
+    """P(M) = 1.0 beside other structures makes 1/(1-P(M)) undefined: not a ruleset the trainer writes (same rule as place_markov)"""
+    if len(rs["grammar"]) > 1:
+        rs["grammar"] = [[s, 0.5 if (s == "M" and float(p) >= 1.0) else p] for s, p in rs["grammar"]]
+    return rs
+
+
+def history_cases(ctx, sc, dist, steps=None):
+    """Histories on ONE ruleset directory (impl_next.History): the four flag combinations loaded one after the other from the
+    SAME directory in a random order, with in-place edits in between that keep the uuid (the Markov line appears / disappears /
+    moves, a base structure dropped, grammar.txt or a terminal file re-weighted, values added / removed, the real edit_rules)
+    and re-trainings.  After EVERY load: the base list is exactly what the lines of grammar.txt AS THEY ARE NOW say under the
+    flag (bit-exact: p, or p / (1 - P(M)) without the Markov line), every table is the file's groups (under all_lower: C<n> the one
+    all-lower mask with probability 1.0, everything else unchanged), and the pairwise restriction oracles on the loads of the
+    same file version.  steps: the recorded steps of a replay (one history)."""
+    import time
+    vio, t0 = [], time.time()
+    flagsets = [(sb, scs, "Grammar") for sb in (False, True) for scs in (False, True)]
+    kinds = ["flags"] * 6 + ["move-markov"] * 2 + ["drop-base", "reweight-base", "reweight-terminal", "add-value", "remove-value",
+                                                    "edit_rules", "retrain", "same"]
+    for hno in range(1 if steps is not None else ctx.scale(30, 600)):
+        if steps is None:
+            rs = rulesets.gen_ruleset(ctx.rng, with_markov=False, max_bases=4, max_len=4)
+            rs = place_markov(rs, ctx.rng, ctx.rng.choice(["first", "middle", "last", "absent", "alone"]))
+            hg = impl_next.HistoryGen(ctx.rng, rs, ctx.rng.choice(flagsets), kinds=kinds, flag_choices=flagsets, fix=_fix_markov,
+                                      gen=lambda name: place_markov(rulesets.gen_ruleset(ctx.rng, with_markov=False, max_bases=4, max_len=4, name=name),
+                                                                    ctx.rng, ctx.rng.choice(["first", "middle", "last", "absent", "alone"])))
+        h = impl_next.History(sc)
+        n = len(steps) if steps is not None else ctx.rng.choice([3, 4, 4, 5])
+        done, gs, bases, bad = [], {}, {}, False
+        dist["histories"] = dist.get("histories", 0) + 1
+        for k in range(n):
+            st = steps[k] if steps is not None else (hg.first() if k == 0 else hg.next(h.current))
+            done.append(st)
+            now = h.write(st)
+            if k > 0 and (st.get("ruleset") is not None or st.get("edit_rules")):
+                gs, bases = {}, {}      # another version of the files: the pairwise oracles start again
+            sb, scs = bool(st.get("skip_brute")), bool(st.get("skip_case"))
+            replay = {"ruleset": now, "history": list(done), "step": k}
+            where = "step %d (%s, skip_brute=%s all_lower=%s) of a history on one ruleset directory: " % (k, st.get("edit"), sb, scs)
+            dist["history_loads"] = dist.get("history_loads", 0) + 1
+            dist.setdefault("history_edits", {})
+            dist["history_edits"][st.get("edit", "?")] = dist["history_edits"].get(st.get("edit", "?"), 0) + 1
+            try:
+                g = h.load(st)
+            except Exception:
+                g = None
+            gs[(sb, scs)] = g
+            bases[(sb, scs)] = None if g is None else load_bases_direct(g)
+            fb = impl_next.file_bases(now, sb, "Grammar")
+            if g is None:
+                try:
+                    g0 = impl_next.load_grammar(now, sc, sb, scs, "Grammar")
+                except Exception:
+                    g0 = None
+                if g0 is not None:
+                    vio.append({"sig": "C14:history-load-failed", "what": where + "the load fails although the same files load from a fresh directory",
+                                "replay": replay})
+                    bad = True
+                    break
+                continue
+            if fb is not None and bases[(sb, scs)] != [(p, r) for p, r in fb]:
+                vio.append({"sig": "C14:skip-brute-bases:file" if sb else "C14:default-bases:file",
+                            "what": where + "base structures %r, but grammar.txt as it is now says %r" % (bases[(sb, scs)][:3], fb[:3]), "replay": replay})
+                bad = True
+            for name in sorted(now["files"]):
+                want = [{"values": list(vs), "prob": p} for p, vs in impl_next.file_groups(now, name, scs)]
+                if g.grammar.get(name) != want:
+                    sig = ("C14:all-lower-masks" if name[0] == "C" else "C14:all-lower-other") if scs else "C14:default-tables:file"
+                    vio.append({"sig": sig, "what": where + "%s is loaded as %r, the file as it is now%s says %r"
+                                % (name, g.grammar.get(name), " under all_lower" if scs else "", want), "replay": replay})
+                    bad = True
+                    break
+            if (False, False) in bases and (True, False) in bases:
+                v = oracle_bases(now, {f[:2]: bases.get(f[:2]) for f in flagsets}, replay)
+                v += oracle_tables(gs, replay)
+                if k == n - 1 and hno % 3 == 0:
+                    v2, nb = oracle_stream(gs, replay, ctx.scale(300, 1500))
+                    v += v2
+                for x in v:
+                    x["what"] = where + x["what"]
+                vio += v
+                bad = bad or bool(v)
+            if bad:
+                break
+    dist["history_seconds"] = round(time.time() - t0, 1)
+    return vio
+
+
 def run(ctx):
     n = ctx.scale(80, 800)
     sc = common.scratch()
@@ -246,6 +335,7 @@ def run(ctx):
             cases.append(("(%s, %s, %s)" % (common.cbool(sb), lines, impl), replay))
         if len(samples) < 3:
             samples.append({"grammar.txt": rs["grammar"], "markov": where, "base(skip_brute)": bases[(True, False)][:3] if bases[(True, False)] else bases[(True, False)]})
+    vio += history_cases(ctx, sc, dist)
     code = common.copy_code_tree(common.scratch())
     for i in range(ctx.scale(3, 10)):
         rs = rulesets.gen_ruleset(ctx.rng, with_markov=True, max_bases=3, max_len=3)
@@ -285,7 +375,10 @@ def run(ctx):
             "real loader under the four flag combinations; base lists compared bit-exactly with the model and with the direct "
             "restriction oracle, capitalisation tables under all_lower, pre-terminal streams for every third ruleset, and the CLI "
             "save/--load path with the flags omitted on resume, and histories of a one-flag session quit at a chosen pre-terminal (real pcfg_guesser.main in-process, harness/main_driver.py) and resumed "
-            "three times (save file flags after every session, union of the outputs = the uninterrupted run); distinct by grammar.txt; non-trivial = Markov not simply in the middle of a 2-line file")
+            "three times (save file flags after every session, union of the outputs = the uninterrupted run); plus histories of 3-5 loads of ONE "
+            "directory (impl_next.History: the flag combinations in random order, in-place edits keeping the uuid - Markov line moved / added / "
+            "removed, base structure dropped, files re-weighted, values added / removed, real edit_rules - and re-trainings), base lists and tables "
+            "compared after every load with the files as they are then; distinct by grammar.txt; non-trivial = Markov not simply in the middle of a 2-line file")
     return {"evaluations": dist["rulesets"] * 4, "distinct_nontrivial": nontrivial, "rule": rule, "samples": samples,
             "corr": corr, "violations": vio, "dist": dist}
 
@@ -295,6 +388,8 @@ def replay(ctx, data):
     if "ruleset" not in inp:
         return []
     rs = inp["ruleset"]
+    if inp.get("history") and inp.get("cli") is None:
+        return history_cases(ctx, common.scratch(), {}, steps=inp["history"])
     if inp.get("cli") == "history":
         code = common.copy_code_tree(common.scratch())
         v, _ = cli_flag_history(ctx, code, rs, rs.get("name", "F0"), inp.get("flags") or ["--skip_brute"])
